@@ -149,6 +149,16 @@ func main() {
 	if err := w.loadBaseline(*verif); err != nil {
 		fail(ids, *verif, "tables/functions.json unreadable: "+err.Error())
 	}
+	// struct fields that were only renamed are analysed under their reviewed names (checker/fieldrename.go)
+	if ov := w.fieldRenameOverlay(); len(ov) > 0 {
+		nren := w.stats["struct_fields_renamed_since_review"]
+		if w2, err2 := loadWorldOverlay(*repo, 30, ov); err2 == nil {
+			if err3 := w2.loadBaseline(*verif); err3 == nil {
+				w2.stats["struct_fields_renamed_since_review"] = nren
+				w = w2
+			}
+		}
+	}
 	w.detectRenames()
 	nNew := 0
 	for k := range w.Funcs {
